@@ -1,6 +1,7 @@
 import Srtla.Model.Sys
 import Srtla.Model.Arm
 import Srtla.Model.Rx
+import Srtla.Model.Stats
 import Srtla.Drv.Util
 import Srtla.Drv.LinkCc
 /-! Driver for the `sys` component: the sender shell, one event per line (C01, C08, C09, C10, C14). -/
@@ -268,6 +269,47 @@ def showArm (res : Srtla.Classifier.Result) (ctl : Srtla.LinkCc.Ctl Float) (ls :
   let ccb := ",".intercalate (ls.map fun (l : L) => showBool l.ccBackingOff)
   s!" | arm[sel={res.selectedDelay} est={res.estimatedMaxDelay} cls=[{cls}] cc=[{cc}] ccb=[{ccb}]]"
 
+/-- A reported float: IEEE bits; `serde_json` turns a non-finite `f64` into `null`. -/
+def sbits (x : Float) : String := if x.isFinite then fbits x else "null"
+
+def showRegimeStats : Regime → String
+  | .low => "low_activity" | .normal => "normal" | .high => "high_load"
+
+/-- `weak_reason_str`. -/
+def showWeakReason : Option Srtla.Classifier.Reason → String
+  | none => "unknown"
+  | some .Healthy => "healthy" | some .HighRtt => "high_rtt" | some .QueueBuilding => "queue_building"
+  | some .NoTraffic => "no_traffic" | some .LowShare => "low_share" | some .Bypassed => "bypassed"
+
+/-- One `LinkStats` as the harness canonicalises its `serde_json::Value`: keys in increasing order, floats as bits,
+`ip` / `label` as the address token. -/
+def showLinkStats (e : Srtla.Stats.LinkStatsM Float Float) : String :=
+  "{" ++ ",".intercalate [
+    s!"base_score={e.baseScore}", s!"batch_regime={showRegimeStats e.batchRegime}",
+    s!"bitrate_bytes_per_sec={e.bitrateBytesPerSec}", s!"cc_climb_mode={e.ccClimbMode.str}",
+    s!"cc_loss_degraded={showBool e.ccLossDegraded}", s!"cc_loss_ewma={sbits e.ccLossEwma}",
+    s!"cc_loss_permille={e.ccLossPermille}", s!"cc_rtt_ewma_ms={sbits e.ccRttEwma}",
+    s!"cc_rtt_min_ms={sbits e.ccRttMin}", s!"cc_rtt_var_ms={sbits e.ccRttVar}",
+    s!"cc_state={(e.ccState.map (·.str)).getD "unknown"}", s!"cc_target_bps={e.ccTarget}",
+    s!"connected={showBool e.connected}", s!"in_flight={e.inFlight}",
+    s!"in_flight_cap_active={showBool e.inFlightCapActive}", s!"in_flight_cap_packets={e.inFlightCapPackets}",
+    s!"ip={e.addr}", s!"label={e.addr}", s!"nak_count={e.nakCount}",
+    s!"quality_multiplier={sbits e.qualityMult}", s!"rtt_min_ms={sbits e.rttMin}", s!"rtt_ms={e.rttMs}",
+    s!"rtt_velocity={sbits e.rttVelocity}", s!"silence_pulls={e.silencePulls}",
+    s!"stall_gate_events={e.stallGateEvents}", s!"stall_gated={showBool e.stallGated}",
+    s!"timed_out={showBool e.timedOut}", s!"weak={showBool e.weak}",
+    s!"weak_reason={showWeakReason e.weakReason}", s!"weak_share_permille={e.weakShare}",
+    s!"weak_threshold_permille={e.weakThreshold}", s!"window={e.window}"] ++ "}"
+
+/-- The extra observation of op `hkarm` (task B3): the snapshot `SharedStats::update` stored, as the harness
+canonicalises the `serde_json::Value` of the real `StatsSnapshot` (`Model/Stats.lean`). -/
+def showStats (p : Srtla.Stats.SnapshotM Float Float) : String :=
+  " | stats{" ++ ",".intercalate [
+    s!"active_links={p.activeLinks}", "links=[" ++ ";".intercalate (p.links.map showLinkStats) ++ "]",
+    "mode=" ++ (if p.classic then "classic" else "enhanced"), s!"quality_enabled={showBool p.qualityEnabled}",
+    s!"total_in_flight={p.totalInFlight}", s!"total_links={p.totalLinks}", s!"total_window={p.totalWindow}",
+    s!"weak_link_estimated_max_delay_ms={p.estMaxDelay}", s!"weak_link_selected_delay_ms={p.selDelay}"] ++ "}"
+
 def stepD (d : DS) (toks : List String) : DS × String :=
   if d.unmodelled then (d, "unmodelled") else
   match toks with
@@ -294,7 +336,7 @@ def stepD (d : DS) (toks : List String) : DS × String :=
       if res.perLink.any (·.panicked) then (d, "PANIC") else
       ({ d with s := r.1.sys, cls := r.1.cls, ctl := r.1.ctl },
        showOut (r.1.sys.links.map fun (l : L) => l.core.connId) r.2 ++ " | " ++ showSys r.1.sys ++
-         showArm res r.1.ctl r.1.sys.links)
+         showArm res r.1.ctl r.1.sys.links ++ showStats (Srtla.Stats.armSnapshot Srtla.Arm.viewsF f now))
     | none => (d, "bad-op")
   | ["reload", now, addrs, fails] =>
     -- the tail of the housekeeping arm after a SIGHUP: the real `apply_connection_changes`
